@@ -274,6 +274,33 @@ impl ModelEvent {
         out
     }
 
+    /// `unit-variant` / `newtype-struct` if a first value holds a map keyed by an enum unit variant /
+    /// a newtype struct (the sval_json quirk's trigger), from the model.
+    pub fn tagged_key_shape(&self) -> Option<&'static str> {
+        for k in self.keys() {
+            let p = self.first(k).unwrap();
+            if !p.structural() {
+                continue;
+            }
+            let mut hit = None;
+            p.model.walk(&mut |n| {
+                if let M::Map(es) = n {
+                    for (k, _) in es {
+                        match k {
+                            M::UnitVariant(..) => hit = hit.or(Some("unit-variant")),
+                            M::NewtypeStruct(..) => hit = hit.or(Some("newtype-struct")),
+                            _ => {}
+                        }
+                    }
+                }
+            });
+            if hit.is_some() {
+                return hit;
+            }
+        }
+        None
+    }
+
     pub fn describe(&self) -> Json {
         serde_json::json!({
             "vid": self.vid, "mdl": self.mdl, "tpl": self.tpl_text(), "extent": self.extent, "kind": format!("{:?}", self.kind),
@@ -593,6 +620,35 @@ pub fn directed_compound_events(seed: u64) -> Vec<ModelEvent> {
                 ],
                 kind: Kind::Log,
                 directed: Some(format!("compound-key:{}", shape)),
+            });
+        }
+    }
+    out
+}
+
+/// Directed events for the other known findings: enum / newtype-struct typed map keys followed by a
+/// labelled value (sval_json quirk, file sink), bytes (JSON bytesValue) and a null inside a sequence
+/// (protobuf ArrayValue).
+pub fn directed_other_known(seed: u64) -> Vec<ModelEvent> {
+    let point = || M::Struct("Point", vec![("a", M::U8(1))]);
+    let cases: Vec<(&str, M)> = vec![
+        ("tagged-key:unit-variant", M::Map(vec![(M::UnitVariant("Kind", 1, "Second"), point()), (M::UnitVariant("Kind", 2, "Third"), point())])),
+        ("tagged-key:newtype-struct", M::Map(vec![(M::NewtypeStruct("Wrapper", Box::new(M::U32(3))), point()), (M::NewtypeStruct("Wrapper", Box::new(M::U32(4))), point())])),
+        ("bytes", M::Bytes(vec![112, 108, 97, 0, 255])),
+        ("null-in-seq", M::Seq(vec![M::None, M::U8(75), M::Unit, M::Str("x".into())])),
+    ];
+    let mut out = Vec::new();
+    for (i, (name, m)) in cases.into_iter().enumerate() {
+        for (j, cap) in [Cap::Sval, Cap::Serde].into_iter().enumerate() {
+            let vid = format!("v{}-directed-{}-{}", seed, name.replace(':', "-"), cap.name());
+            out.push(ModelEvent {
+                vid: vid.clone(),
+                mdl: "c13".into(),
+                parts: vec![(false, format!("{} known", vid))],
+                extent: Some((None, BASE_NANOS + 600_000_000_000 + (i * 2 + j) as u64)),
+                props: vec![Prop::new("vid", M::Str(vid.clone()), Cap::Typed), Prop::new("m", m.clone(), cap), Prop::new("after", M::I32(1), Cap::Typed)],
+                kind: Kind::Log,
+                directed: Some(name.to_string()),
             });
         }
     }
